@@ -16,8 +16,11 @@ RULE = ("four case families. filter: line lists assembled from segments (complet
         "line alphabet (exhaustive up to length 4-5 in the thorough tier). chain: d = 1..50 (thorough: ..300) awaiting tasks, a "
         "handler mode per level (none / bare raise / raise e / store-yield-raise / raise new / swallow), await or synchronous call "
         "per level, yield shape per level, raise in the body / k helper calls deep / ErrorFuture / re-raise of an instance prepared by qcore.prepare_for_reraise elsewhere. stack: creator chains of depth "
-        "1..50 (thorough: ..3000) where each level is created by its parent (yield or sync call), outside any task, or by a "
-        "finished helper task. repr: every (kind, lifecycle state) cell driven through the public API (exhaustive list) plus random "
+        "1..50 (thorough: ..3000) where each level is created by its parent (yield or sync call), outside any task, by a "
+        "finished helper task or by a helper task that then failed; independently per task (outermost, middle, calling task, failed helper) "
+        "whether the source line of its frame can be retrieved (if not: function compiled under a pseudo file name / file missing / file empty); "
+        "format_asynq_stack() called before the first yield, after a yield, or in a plain function called by the task "
+        "(thorough: every source assignment for chains up to depth 5). repr: every (kind, lifecycle state) cell driven through the public API (exhaustive list) plus random "
         "object trees (dependency trees deeper than the dump cut-off, schedulers with queues) put into arbitrary attribute states. "
         "distinct = different case tree; non-trivial = filter: >= 1 complete and >= 1 partial run; chain: depth >= 2; stack: depth "
         ">= 2; repr: every cell / tree with >= 1 nested object")
@@ -148,28 +151,79 @@ def mk_chain(modes, bottom, pre_yields=1, shapes=None):
 
 
 # --------------------------------------------------------------------------- generators: stack
+NOSRC_HOW = ["exec", "missing-file", "empty-file"]
+CALL_SITES = ["after-yield", "before-yield", "in-plain-fn"]
+
+
+def mk_stack(cs, s0="SrcFile", srcs=None, nosrc_how=None, call_site="after-yield", **meta):
+    """cs: creation kind per level below the outermost; srcs: source kind per such level (default: all
+    file-backed); s0: source kind of the outermost task."""
+    srcs = srcs or ["SrcFile"] * len(cs)
+    m = {"family": "stack", "call_site": call_site}
+    if nosrc_how:
+        m["nosrc_how"] = nosrc_how
+    m.update(meta)
+    return {"tree": {"CStack": [s0, [{"": [c, x]} for c, x in zip(cs, srcs)]]}, "meta": m}
+
+
+def stack_levels(c):
+    """(s0, [created...], [src...]) of a CStack case."""
+    s0, cs = c["tree"]["CStack"]
+    return s0, [x[""][0] for x in cs], [x[""][1] for x in cs]
+
+
+def gen_src(rng, p):
+    return "SrcNone" if rng.random() < p else "SrcFile"
+
+
 def gen_stack(rng, tier, deep=None):
+    # how often a level has no retrievable source line: mostly never or rarely, sometimes often/always
+    p = rng.choice([0.0, 0.0, 0.15, 0.15, 0.3, 0.5, 1.0])
+    how = [rng.choice(NOSRC_HOW) for _ in range(rng.choice([1, 1, 3]))]
+    site = rng.choice(CALL_SITES)
     if deep is not None:
         cs = ["ByParent"] * deep
         for _ in range(rng.randrange(0, 3)):
-            cs[rng.randrange(deep)] = "ByHelper"
-        return {"tree": {"CStack": [cs]}, "meta": {"family": "stack", "deep": True}}
+            cs[rng.randrange(deep)] = rng.choice(["ByHelper", {"ByFailedHelper": [gen_src(rng, 0.5)]}])
+        srcs = ["SrcFile"] * deep
+        for _ in range(rng.randrange(0, 4)):
+            srcs[rng.randrange(deep)] = "SrcNone"
+        return mk_stack(cs, gen_src(rng, 0.2), srcs, how, site, deep=True)
     dmax = 50
-    d = rng.choice([1, 2, 2, 3, 4, 5, 8, 13, rng.randrange(1, dmax + 1)])
+    d = rng.choice([1, 2, 2, 3, 3, 4, 5, 8, 13, rng.randrange(1, dmax + 1)])
     cs = []
     nsync = 0
     for _ in range(d):
         r = rng.random()
-        if r < 0.6:
+        if r < 0.55:
             cs.append("ByParent")
-        elif r < 0.75 and nsync < 12:
+        elif r < 0.7 and nsync < 12:
             cs.append("BySync")
             nsync += 1
-        elif r < 0.87:
+        elif r < 0.8:
             cs.append("ByHelper")
+        elif r < 0.9:
+            cs.append({"ByFailedHelper": [gen_src(rng, max(p, 0.3))]})
         else:
             cs.append("Pre")
-    return {"tree": {"CStack": [cs]}, "meta": {"family": "stack"}}
+    return mk_stack(cs, gen_src(rng, p), [gen_src(rng, p) for _ in range(d)], how, site)
+
+
+def exhaustive_stack(maxd):
+    """Every assignment of source kinds to chains of up to maxd parent-created levels, and every creation
+    kind at one position with a source-less task directly above / at / below it."""
+    out = []
+    for d in range(1, maxd + 1):
+        for ss in itertools.product(["SrcFile", "SrcNone"], repeat=d + 1):
+            out.append(mk_stack(["ByParent"] * d, ss[0], list(ss[1:]), ["exec"], exhaustive=True))
+    kinds = ["ByParent", "BySync", "Pre", "ByHelper", {"ByFailedHelper": ["SrcFile"]}, {"ByFailedHelper": ["SrcNone"]}]
+    for k1 in kinds:
+        for k2 in kinds:
+            for pos in range(3):
+                srcs = ["SrcFile"] * 3
+                srcs[pos] = "SrcNone"
+                out.append(mk_stack(["ByParent", k1, k2], "SrcFile", srcs, ["missing-file"], exhaustive=True))
+    return out
 
 
 # --------------------------------------------------------------------------- generators: repr
@@ -305,7 +359,7 @@ def gen_cases(rng, tier):
     quick = tier == "quick"
     cs += [gen_filter(rng, rng.random() < 0.3) for _ in range(260 if quick else 4000)]
     cs += [gen_chain(rng, tier, rng.random() < 0.3) for _ in range(110 if quick else 900)]
-    cs += [gen_stack(rng, tier) for _ in range(50 if quick else 400)]
+    cs += [gen_stack(rng, tier) for _ in range(70 if quick else 500)]
     cs += [gen_repr(rng, rng.random() < 0.25) for _ in range(110 if quick else 1500)]
     if not quick:
         a = PATTERNS[0][0][:2] + ["x"]
@@ -313,6 +367,7 @@ def gen_cases(rng, tier):
         b = PATTERNS[2][0][:1] + PATTERNS[2][0][1:2] + PATTERNS[2][0][4:] + ["    raise value"]
         cs += exhaustive_filter(6, ["  in " + x for x in b])
         cs += [gen_stack(rng, tier, deep=n) for n in (100, 500, 900, 1100, 2000, 3000)]
+        cs += exhaustive_stack(5)
         for modes in itertools.product(MODES, repeat=3):
             cs.append(mk_chain([(m, "HAwait") for m in modes], {"BRaise": [{"n": 1}]}))
         for modes in itertools.product(MODES[:5], repeat=2):
@@ -348,11 +403,16 @@ CORPUS = cell_cases() + [
     mk_chain([("MPass", "HAwait")] * 49, {"BRaise": [{"n": 1}]}),
     mk_chain([("MPass", "HAwait")] * 2, {"BPrepared": [{"n": 0}]}),
     mk_chain([("MReraise", "HAwait"), ("MPass", "HSync"), ("MLater", "HAwait")], {"BPrepared": [{"n": 2}]}),
-    {"tree": {"CStack": [[]]}, "meta": {"family": "stack"}},
-    {"tree": {"CStack": [["ByParent"] * 3]}, "meta": {"family": "stack"}},
-    {"tree": {"CStack": [["ByParent", "ByHelper", "BySync", "Pre", "ByParent"]]}, "meta": {"family": "stack"}},
-    {"tree": {"CStack": [["ByHelper"] * 4]}, "meta": {"family": "stack"}},
-    {"tree": {"CStack": [["ByParent"] * 50]}, "meta": {"family": "stack"}},
+    mk_stack([]),
+    mk_stack(["ByParent"] * 3),
+    mk_stack(["ByParent", "ByHelper", "BySync", "Pre", "ByParent"]),
+    mk_stack(["ByHelper"] * 4),
+    mk_stack(["ByParent"] * 50),
+    # a task in the middle of the creator chain whose source line cannot be retrieved
+    mk_stack(["ByParent"] * 3, "SrcFile", ["SrcFile", "SrcNone", "SrcFile"], ["exec"]),
+    # ... the calling task itself, with its file gone; nothing retrievable anywhere
+    mk_stack(["ByParent", "BySync"], "SrcFile", ["SrcFile", "SrcNone"], ["missing-file"], "before-yield"),
+    mk_stack(["ByParent", {"ByFailedHelper": ["SrcNone"]}, "ByParent"], "SrcNone", ["SrcNone"] * 3, NOSRC_HOW, "in-plain-fn"),
 ]
 
 
@@ -428,16 +488,44 @@ def expected_chain(ms, bottom):
     return [("caller_frame", 1, 1)] + seq
 
 
+def created_kind(c):
+    return c if isinstance(c, str) else next(iter(c))
+
+
 def expected_stack(cs):
+    """Reading of the statement: the calling task and each task that created it, outermost first, as
+    task names; cs = how each level below the outermost was created."""
     names = [("TL", 0)]
     for i, c in enumerate(cs):
-        if c == "Pre":
+        k = created_kind(c)
+        if k == "Pre":
             names = [("TL", i + 1)]
-        elif c == "ByHelper":
+        elif k in ("ByHelper", "ByFailedHelper"):
             names += [("TH", i + 1), ("TL", i + 1)]
         else:
             names.append(("TL", i + 1))
     return [{k: [v]} for k, v in names]
+
+
+def sourceless_tasks(s0, cs, srcs):
+    """Names of the tasks on the chain that have a frame whose source line cannot be retrieved."""
+    out = []
+    for i, x in enumerate([s0] + srcs):
+        if x == "SrcNone":
+            out.append({"TL": [i]})
+    for i, c in enumerate(cs):
+        if isinstance(c, dict) and c.get("ByFailedHelper") == ["SrcNone"]:
+            out.append({"TH": [i + 1]})
+    return out
+
+
+def entry_task(e):
+    """The task an entry of format_asynq_stack() names (None if it names none)."""
+    if isinstance(e, dict):
+        for k in ("EFrame", "EStr"):
+            if k in e:
+                return e[k][0]
+    return None
 
 
 # --------------------------------------------------------------------------- monitors
@@ -525,17 +613,34 @@ def monitors(c, io, build):
                     fs.append(dict(clause="format-error-faithful", site="format_error:%s%s:levels-missing-or-reordered" % (pi, f["variant"].split(",")[0]),
                                    msg="format_error (%s) lists %s, expected %s" % (f["variant"], lv[:30], wnames[1:][:30])))
     elif fam == "CStack":
-        cs = c["tree"]["CStack"][0]
+        s0, cs, srcs = stack_levels(c)
         want = expected_stack(cs)
+        nosrc = sourceless_tasks(s0, cs, srcs)
         if not obs.get("outside_none", True):
             fs.append(dict(clause="stack-outermost-first", site="format_asynq_stack:not-None-outside-task", msg="format_asynq_stack() outside any task did not return None"))
         if isinstance(out, dict) and "RStackRaised" in out:
             exc = out["RStackRaised"][0]["s"]
             fs.append(dict(clause="stack-outermost-first", site="format_asynq_stack:raised-%s" % exc,
-                           msg="format_asynq_stack() inside a task whose creator chain has %d entries raised %s" % (len(want), exc)))
+                           msg="format_asynq_stack() inside a task whose creator chain has %d entries (%d of them without a retrievable source line) raised %s"
+                               % (len(want), len(nosrc), exc)))
+        elif not (isinstance(out, dict) and "RStack" in out):
+            fs.append(dict(clause="stack-outermost-first", site="format_asynq_stack:not-a-list", msg="format_asynq_stack() inside a task returned %s" % json.dumps(out)[:100]))
         else:
-            got = out["RStack"][0]
-            if len(got) != len(want):
+            ents = out["RStack"][0]
+            got = [entry_task(e) for e in ents]
+            if None in got:
+                bad = ents[got.index(None)]
+                fs.append(dict(clause="stack-outermost-first", site="format_asynq_stack:entry-names-no-task",
+                               msg="entry %d of format_asynq_stack() does not name a task of the chain: %s" % (got.index(None), json.dumps(bad)[:120])))
+            elif len(got) < len(want) and got == want[len(want) - len(got):] and got:
+                # the calling task is there but the list stops short of the outermost creator
+                site = "format_asynq_stack:outer-creators-missing"
+                if got[0] in nosrc:
+                    site += ":above-task-without-source-line"
+                fs.append(dict(clause="stack-outermost-first", site=site,
+                               msg="format_asynq_stack() listed %d entries %s for a creator chain of %d: the %d outermost creators %s are missing (tasks without a retrievable source line: %s)"
+                                   % (len(got), got[:6], len(want), len(want) - len(got), want[:len(want) - len(got)][:6], nosrc[:6])))
+            elif len(got) != len(want):
                 fs.append(dict(clause="stack-outermost-first", site="format_asynq_stack:wrong-number-of-entries",
                                msg="format_asynq_stack() listed %d entries for a creator chain of %d" % (len(got), len(want))))
             elif got != want:
@@ -578,7 +683,7 @@ def nontrivial(c):
     if fam == "CChain":
         return len(t[0]) + 1 >= 2
     if fam == "CStack":
-        return len(t[0]) >= 2
+        return len(t[1]) >= 2
     if fam == "CRepr":
         return bool((c.get("meta") or {}).get("cell")) or isinstance(t[0], dict) and next(iter(t[0])) in ("OTask", "OBatch", "OSched") and len(json.dumps(t[0])) > 60
     return False
@@ -587,6 +692,7 @@ def nontrivial(c):
 def distribution(cases):
     d = {"family": {}, "filter_len": {}, "filter_runs": {"complete>=1": 0, "partial>=1": 0, "both": 0, "partial_at_end": 0},
          "chain_depth": {}, "chain_modes": {}, "chain_sync_levels": 0, "chain_bottom": {}, "stack_depth": {}, "stack_created": {},
+         "stack_sourceless": {"none": 0, "outermost-only": 0, "below-outermost": 0, "calling-task": 0, "all": 0}, "stack_nosrc_how": {}, "stack_call_site": {},
          "repr_cells": 0, "repr_generated": {}, "malformed": 0}
 
     def bucket(n):
@@ -618,10 +724,27 @@ def distribution(cases):
             bk = t[1] if isinstance(t[1], str) else "%s%d" % (next(iter(t[1])), next(iter(t[1].values()))[0]["n"])
             d["chain_bottom"][bk] = d["chain_bottom"].get(bk, 0) + 1
         elif fam == "CStack":
-            b = bucket(len(t[0]))
+            s0, kinds, srcs = stack_levels(c)
+            b = bucket(len(kinds))
             d["stack_depth"][b] = d["stack_depth"].get(b, 0) + 1
-            for x in t[0]:
+            for x in kinds:
+                x = created_kind(x)
                 d["stack_created"][x] = d["stack_created"].get(x, 0) + 1
+            ns = sourceless_tasks(s0, kinds, srcs)
+            sl = d["stack_sourceless"]
+            if not ns:
+                sl["none"] += 1
+            elif ns == [{"TL": [0]}]:
+                sl["outermost-only"] += 1
+            else:
+                sl["below-outermost"] += 1
+            sl["calling-task"] += ([s0] + srcs)[-1] == "SrcNone"
+            sl["all"] += all(x == "SrcNone" for x in [s0] + srcs)
+            if ns:
+                for h in meta.get("nosrc_how") or ["exec"]:
+                    d["stack_nosrc_how"][h] = d["stack_nosrc_how"].get(h, 0) + 1
+            cs_ = meta.get("call_site", "after-yield")
+            d["stack_call_site"][cs_] = d["stack_call_site"].get(cs_, 0) + 1
         else:
             if meta.get("cell"):
                 d["repr_cells"] += 1
@@ -652,16 +775,26 @@ def shrink(c):
         if b != {"BRaise": [{"n": 0}]}:
             yield {"tree": {"CChain": [ms, {"BRaise": [{"n": 0}]}]}, "meta": m2}
     elif fam == "CStack":
-        cs = t[0]
+        s0, cs = t
         n = len(cs)
+        plain = {"": ["ByParent", "SrcFile"]}
         if n > 8:   # bisect deep chains first
             for k in (n // 2, n - n // 4, n - n // 16 - 1, n - 1):
-                yield {"tree": {"CStack": [["ByParent"] * k]}, "meta": meta}
+                yield {"tree": {"CStack": [s0, cs[n - k:]]}, "meta": meta}
+                yield {"tree": {"CStack": ["SrcFile", [plain] * k]}, "meta": meta}
         else:
             for i in range(n):
-                yield {"tree": {"CStack": [cs[:i] + cs[i + 1:]]}, "meta": meta}
-        if any(x != "ByParent" for x in cs):
-            yield {"tree": {"CStack": [["ByParent"] * n]}, "meta": meta}
+                yield {"tree": {"CStack": [s0, cs[:i] + cs[i + 1:]]}, "meta": meta}
+        if any(x[""][0] != "ByParent" for x in cs):
+            yield {"tree": {"CStack": [s0, [{"": ["ByParent", x[""][1]]} for x in cs]]}, "meta": meta}
+        if n <= 8:
+            for i in range(n):
+                if cs[i][""][1] != "SrcFile":
+                    yield {"tree": {"CStack": [s0, cs[:i] + [{"": [cs[i][""][0], "SrcFile"]}] + cs[i + 1:]]}, "meta": meta}
+        if s0 != "SrcFile":
+            yield {"tree": {"CStack": ["SrcFile", cs]}, "meta": meta}
+        if meta.get("call_site", "after-yield") != "after-yield" or (meta.get("nosrc_how") or ["exec"]) != ["exec"]:
+            yield {"tree": {"CStack": [s0, cs]}, "meta": dict(meta, call_site="after-yield", nosrc_how=["exec"])}
     elif fam == "CRepr" and not meta.get("cell"):
         o = t[0]
         if isinstance(o, dict):
